@@ -84,18 +84,26 @@ def valid_child(form: Any, path: tuple, child: Any) -> bool:
     return True
 
 
+def is_operator_form(e: Any) -> bool:
+    return e[0] in (3, 4, 5) or (e[0] == 13 and e[1] in (0, 1))
+
+
 def depth2(tier: str) -> List[Any]:
     """Every form x every assignment of {leaf} + depth-one forms to its child slots; forms with more than two slots get
-    every assignment in which at most two slots are not leaves."""
+    every assignment in which at most two slots are not leaves.
+    quick: every single-slot substitution for every form; pairs of substitutions in full for the operator forms (unary,
+    binary, boolean, comparison, conditional) and, for the other forms, with both children taken from the operator forms."""
     subs = d1_forms(tier)
+    op_subs = [x for x in subs if is_operator_form(x)]
     out: List[Any] = []
     for form in d1_forms(tier):
         pos = fill_positions(form)
         if not pos:
             continue
         for k in (1, 2):
+            pool = subs if (k == 1 or tier == 'thorough' or form[0] in (3, 4, 5)) else op_subs
             for chosen in itertools.combinations(range(len(pos)), k):
-                for vals in itertools.product(subs, repeat=k):
+                for vals in itertools.product(pool, repeat=k):
                     e = form
                     for ci, v in zip(chosen, vals):
                         e = put(e, pos[ci], v)
